@@ -39,13 +39,18 @@ warnings.simplefilter("ignore")
 MODULE = "ColaVerif.Properties.C09"
 DRIVER = "DriverC09.lean"
 
-# ---- provisional clauses (the other recorded findings come from /verif/known_findings.json, common.known_clauses).
-# The earlier clauses krylov-zero-mask and pow-neg-one-krylov-alg were repaired in /repo (a523921, 57e439f).
-# krylov-batch-unequal-exhaustion is the recorded C15 / C14 defect (breakdownNotMasked, batch-member-breakdown) surfacing
-# through C09; it is only ever applied to a batch of the sub-stream early-batch-unequal whose columns, run one by one
-# through the same call, are ALL right (Engine.unequal_batch).
-# all findings of this check are recorded in /verif/known_findings.json (scalar-times-annotated, kron-pow-principal-branch,
-# krylov-batch-unequal-exhaustion, krylov-zero-column) and matched through common.known_clauses
+# ---- recorded clauses.  All findings of this check are recorded in /verif/known_findings.json (scalar-times-annotated,
+# kron-pow-principal-branch, krylov-batch-unequal-exhaustion, krylov-zero-column) and read through common.known_clauses; none is
+# provisional.  (The earlier clauses krylov-zero-mask and pow-neg-one-krylov-alg no longer exist: repaired in /repo, a523921, 57e439f.)
+# The two run-level clauses are DECIDED BY THE DRIVER on the input (DriverC09 `clauses`):
+#   krylov-batch-unequal-exhaustion (the recorded C15 / C14 defect breakdownNotMasked / batch-member-breakdown surfacing through C09):
+#     Lean `KrylovExact.unequalExhaustion` -- the columns, run alone under the relative stopping rule in exact arithmetic, stop at
+#     different steps; applied only to a wrong batch of the sub-stream early-batch-unequal whose columns, run one by one through the
+#     same call, are ALL right (Engine.unequal_batch);
+#   krylov-zero-column: Lean `UnOp.zeroFibreClause` -- a Krylov member of the Kronecker plan receives an exactly zero fibre; applied
+#     only to a NaN / inf result or a LinAlgError (Engine.zero_column).
+# The Python predicates (`krylov_zero_column`, the generator's "exhaust" steps) are cross-checks: Engine.cross_check, a disagreement
+# with the driver is a VIOLATION (no-failing-input-found).
 PROVISIONAL_KNOWN = {}
 
 EXPONENTS = [Fraction(-2), Fraction(-1), Fraction(-1, 2), Fraction(0), Fraction(1, 2), Fraction(1), Fraction(2), Fraction(3),
@@ -95,6 +100,41 @@ def stub(e):
         return [t, stub(e[1])]
     if t == "ann":
         return ["ann", e[1], stub(e[2])]
+    return e
+
+
+def dy_scalar(v):
+    """a payload scalar as an EXACT rational of the case language: a double is a dyadic rational (float.as_integer_ratio)"""
+    if isinstance(v, dict):
+        return v
+    if isinstance(v, (list, tuple)):
+        return [dy_scalar(v[0]), dy_scalar(v[1])]
+    if isinstance(v, bool):
+        return int(v)
+    if isinstance(v, int):
+        return v
+    n, d = float(v).as_integer_ratio()
+    return n if d == 1 else {"q": [n, d]}
+
+
+def dyadic(e):
+    """the tree with every float payload replaced by its exact dyadic value (sent to the driver where it DECIDES a recorded clause
+    on the input: zero patterns, exhaustion steps)"""
+    t = e[0]
+    if t == "dense":
+        return ["dense", e[1], e[2], e[3], [[dy_scalar(z) for z in row] for row in e[4]]]
+    if t == "diag":
+        return ["diag", e[1], [dy_scalar(z) for z in e[2]]]
+    if t == "scalar":
+        return ["scalar", e[1], dy_scalar(e[2]), e[3]]
+    if t in ("prod", "sum", "kron", "kronsum"):
+        return [t] + [dyadic(x) for x in e[1:]]
+    if t == "bdiag":
+        return ["bdiag", [dyadic(x) for x in e[1]], e[2]]
+    if t in ("T", "H"):
+        return [t, dyadic(e[1])]
+    if t == "ann":
+        return ["ann", e[1], dyadic(e[2])]
     return e
 
 
@@ -484,7 +524,9 @@ def classify(case, ans, real):
     case = dict(case)
     case["powplan"] = ans.get("powplan", "n/a")
     plan = ans["plan"]
-    clauses = list(ans.get("clauses", []))
+    # (the run-level clauses the driver decides from the input explain ONE failure class each -- NaN / LinAlgError resp. a wrong
+    #  batch whose columns are right -- and are applied by Engine.zero_column / Engine.unequal_batch only)
+    clauses = [cl for cl in ans.get("clauses", []) if cl not in RUN_CLAUSES]
     # ---- the model says the call raises
     if ans.get("raise"):
         want = ans["raise"]
@@ -1105,6 +1147,7 @@ EARLY_UNEQUAL = "early-batch-unequal"
 EARLY_STREAMS = ["early-few-distinct", "early-invariant-subspace", "early-batch-equal", EARLY_UNEQUAL, "early-exact-padding"]
 EARLY_WEIGHTS = [30, 25, 15, 15, 15]
 BATCH_CLAUSE = "krylov-batch-unequal-exhaustion"
+RUN_CLAUSES = ("krylov-batch-unequal-exhaustion", "krylov-zero-column")
 
 
 def krylov_profile(M, x, herm):
@@ -1367,7 +1410,7 @@ def gen_branch_cases(ctx, rng, nprng, n_cases):
     """pow / sqrt / isqrt of a Kronecker product of COMPLEX factors, inside and OUTSIDE the domain of the rule
     (a b)**alpha = a**alpha b**alpha (principal branch: arg a + arg b in (-pi, pi], Lean `MatFun.ArgSumOK`).  Inside, the
     result must be the principal power of the Kronecker product; outside, cola returns another branch: real = rule model,
-    both differ from the principal f(A (x) B) -> provisional clause kron-pow-principal-branch (the clause is attached by the
+    both differ from the principal f(A (x) B) -> recorded clause kron-pow-principal-branch (the clause is attached by the
     decidable predicate `kron_branch_violated`, never by the outcome).  Arguments are kept >= 0.12 rad away from the cut
     and argument sums >= 0.12 rad away from +-pi, so that rounding cannot move an eigenvalue across the branch cut."""
     G = Gen9(rng, nprng)
@@ -1578,8 +1621,28 @@ def exact_domain_ok(case, ans):
     return True
 
 
+def strip_ann(e):
+    while e[0] == "ann":
+        e = e[2]
+    return e
+
+
+def wants_clause_decision(c):
+    """the cases on which the DRIVER decides the run-level clauses (RUN_CLAUSES) from the input: Kronecker roots (krylov-zero-column
+    needs the zero pattern of operand and Diagonal members) and the unequal-batch sub-stream (krylov-batch-unequal-exhaustion needs
+    operand, tol and max_iters)"""
+    return strip_ann(c["op"])[0] == "kron" or c.get("stream") in (EARLY_UNEQUAL, "defect-zero-column")
+
+
 def driver_case(c):
     d = {"id": c["id"], "op": c["op"] if is_exact_tree(c["op"]) else stub(c["op"]), "fn": c["fn"], "alg": c["alg"]}
+    if wants_clause_decision(c):
+        if not is_exact_tree(c["op"]):
+            d["op"], d["dy"] = dyadic(c["op"]), True
+        d["x"] = [[dy_scalar(z) for z in row] for row in c["x"]]
+        if c.get("stream") == EARLY_UNEQUAL and c.get("ktol") is not None and c.get("kiters") is not None:
+            d["ktol"] = dy_scalar(float(c["ktol"])) if not isinstance(c["ktol"], dict) else c["ktol"]
+            d["kiters"] = int(c["kiters"])
     if "alpha" in c:
         d["alpha"] = c["alpha"]
     if "ufn" in c:
@@ -1615,6 +1678,7 @@ class Engine:
                 st, det, facts = "skipped", f"oracle failed: {type(ex).__name__}: {str(ex)[:100]}", {"clauses": []}
             if c.get("stream"):
                 facts["steps"] = krylov_steps(real)
+            self.cross_check(c, a, real)
             if st == "violation" and c.get("stream") == EARLY_UNEQUAL and "Y" in real:
                 st, det, facts = self.unequal_batch(c, a, st, det, facts)
             if st == "violation":
@@ -1622,18 +1686,54 @@ class Engine:
             out.append((c, a, real, st, det, facts))
         return out
 
+    def driver_run_clauses(self, a):
+        return [cl for cl in (a.get("clauses") or []) if cl in RUN_CLAUSES]
+
+    def py_zero_column(self, c, a, real):
+        """the Python cross-check of the driver's decision (None: not computable)"""
+        try:
+            A = real["A"] if "A" in real else build.Builder().build(c["op"])
+            return bool(krylov_zero_column(c, a["plan"], A, operand(c)))
+        except Exception:  # noqa: BLE001
+            return None
+
+    def py_unequal(self, c, a):
+        """the generator's own statement about the batch: the columns' exhaustion steps (capped by min(max_iters, n)) differ"""
+        if c.get("stream") != EARLY_UNEQUAL or c.get("vec") or len(c["x"][0]) < 2 or "exhaust" not in c:
+            return None
+        cap = min(int(c.get("kiters") or a.get("rows") or 0), int(a.get("rows") or 0))
+        return len({min(int(s), cap) for s in c["exhaust"]}) > 1
+
+    def cross_check(self, c, a, real):
+        """the recorded run-level clauses are attributed by the DRIVER's list (decidable Lean predicates on the input:
+        UnOp.zeroFibreClause, KrylovExact.unequalExhaustion); the Python predicates stay as a cross-check, on EVERY case the decision
+        was requested for (failing or not): a disagreement means one of the two models of the clause is wrong"""
+        if not wants_clause_decision(c) or "plan" not in a or "error" in a:
+            return
+        drv = self.driver_run_clauses(a)
+        checks = []
+        if strip_ann(c["op"])[0] == "kron":
+            checks.append((ZERO_CLAUSE, self.py_zero_column(c, a, real)))
+        checks.append((BATCH_CLAUSE, self.py_unequal(c, a)))
+        for cl, py in checks:
+            if py is None:
+                continue
+            self.stats["clause-predicate-cross-checked"] += 1
+            if py != (cl in drv):
+                self.stats["clause-predicate-disagreement"] += 1
+                if self.stats["clause-predicate-disagreement"] <= 3:
+                    common.violation(self.ctx, {"broken": f"the driver's decision of the clause {cl} ({cl in drv}; stop_steps {a.get('stop_steps')}) disagrees with "
+                                                          f"the Python predicate ({py}; exhaust {c.get('exhaust')})",
+                                                "case": {k: v for k, v in c.items()}, "plan": a.get("plan")}, no_input=True)
+
     def zero_column(self, c, a, real, st, det, facts):
         """a failing call is reported through the clause krylov-zero-column only if (i) it failed by NaN / inf in the result or by a
-        LinAlgError and (ii) the decidable predicate `krylov_zero_column` holds for this input"""
+        LinAlgError and (ii) the DRIVER lists the clause for this input (Lean predicate `UnOp.zeroFibreClause` on plan and operand;
+        the Python predicate `krylov_zero_column` is the cross-check)"""
         nonfinite = "Y" in real and not np.all(np.isfinite(np.asarray(real["Y"], dtype=np.complex128)))
         if not (nonfinite or real.get("err") == "error:LinAlgError") or "plan" not in a:
             return st, det, facts
-        try:
-            A = build.Builder().build(c["op"])
-            hit = krylov_zero_column(c, a["plan"], A, operand(c))
-        except Exception:  # noqa: BLE001
-            hit = False
-        if not hit:
+        if ZERO_CLAUSE not in self.driver_run_clauses(a):       # attribution by the DRIVER's list (cross-checked in cross_check)
             return st, det, facts
         facts = dict(facts)
         facts["clauses"] = [ZERO_CLAUSE]
@@ -1648,6 +1748,8 @@ class Engine:
         ncols = len(c["x"][0])
         if c.get("vec") or ncols < 2:
             return st, det, facts
+        if BATCH_CLAUSE not in self.driver_run_clauses(a):      # attribution by the DRIVER's list (cross-checked in cross_check)
+            return st, f"{det}; the driver's exhaustion steps of the columns {a.get('stop_steps')} do not differ", facts
         errs = []
         for j in range(ncols):
             cj = dict(c)
@@ -2003,9 +2105,9 @@ WITNESSES = [
      "kcap": "n", "exhaust": [2], "stream": "early-invariant-subspace", "x": [[2.0], [1.0], [0.0], [0.0]], "vec": True, "xdt": "f64", "cls": "early"},
     {"op": ["ann", "PSD", ["dense", "f64", 4, 4, [[2.0, 1.0, 0.0, 0.0], [1.0, 2.0, 0.0, 0.0], [0.0, 0.0, 3.0, 1.0], [0.0, 0.0, 1.0, 4.0]]]], "fn": "isqrt", "alg": "lanczos", "kiters": 4,
      "ktol": 1e-10, "kcap": "n", "exhaust": [2], "stream": "early-invariant-subspace", "x": [[1.0], [2.0], [0.0], [0.0]], "vec": True, "xdt": "f64", "cls": "early"},
-    # the witness of the provisional clause krylov-batch-unequal-exhaustion (columns exhausted after 2 and after 4 steps)
+    # the witness of the recorded clause krylov-batch-unequal-exhaustion (columns exhausted after 2 and after 3 steps: (1,1,1,1) stays in x3 = x4)
     {"op": ["dense", "f64", 4, 4, [[1.0, 1.0, 0.0, 0.0], [0.0, 2.0, 1.0, 0.0], [0.0, 0.0, 3.0, 1.0], [0.0, 0.0, 0.0, 4.0]]], "fn": "pow", "alpha": {"q": [-2, 1]}, "alg": "arnoldi",
-     "kiters": 4, "ktol": 1e-7, "kcap": "n", "exhaust": [2, 4], "stream": EARLY_UNEQUAL, "x": [[2.0, 1.0], [1.0, 1.0], [0.0, 1.0], [0.0, 1.0]], "vec": False, "xdt": "f64", "cls": "early"},
+     "kiters": 4, "ktol": 1e-7, "kcap": "n", "exhaust": [2, 3], "stream": EARLY_UNEQUAL, "x": [[2.0, 1.0], [1.0, 1.0], [0.0, 1.0], [0.0, 1.0]], "vec": False, "xdt": "f64", "cls": "early"},
 ]
 
 
@@ -2072,7 +2174,7 @@ def run(ctx):
                    "model of the recurrence sees the exhaustion with a margin of 100 (and no earlier residual below 1e-4): few-distinct (2-4 distinct eigenvalues in [0.7, 3.5], "
                    "generic operand), invariant-subspace (simple spectrum, operand = combination of 2-3 eigenvectors with eigenvalues >= 0.5 apart, coefficients in "
                    "[0.5, 2]), batch-equal (2-3 columns exhausted at the same step), batch-unequal (columns exhausted at different steps; a wrong batch whose columns are "
-                   "all right one by one is the provisional clause krylov-batch-unequal-exhaustion), exact-padding (block diagonal dyadic tridiagonal blocks, canonical "
+                   "all right one by one AND for which the driver decides unequal exhaustion steps is the recorded clause krylov-batch-unequal-exhaustion), exact-padding (block diagonal dyadic tridiagonal blocks, canonical "
                    "start vectors: exactly zero residual and padding, Arnoldi); functions log / isqrt / pow -2 (>= 60 %), pow -1/2, sqrt, exp, pow 5/2, pow -1 (single "
                    "column only); "
                    "BRANCH stream (cls branch): Kronecker products of 2-3 complex Diagonal / normal Dense factors (size <= 12) with eigenvalue arguments in "
@@ -2082,7 +2184,8 @@ def run(ctx):
     cov["provisional_known"] = PROVISIONAL_KNOWN
     cov["trusted_base_extra"] = [
         "numpy.linalg eigh/eig/inv as the parameters of the base cases when the plan is evaluated in float64 (harness/props/c09.py eval_plan); scipy.linalg expm/logm/sqrtm/fractional_matrix_power as the numerical specification",
-        "rule selection is payload independent: for float payloads the Lean driver receives the tree with payloads replaced by 0"]
+        "rule selection is payload independent: for float payloads the Lean driver receives the tree with payloads replaced by 0 -- except on Kronecker roots and the "
+        "sub-stream early-batch-unequal, where it receives tree and operand as exact dyadic rationals and decides the run-level clauses"]
     common.write_evidence(ctx, gate, cov, assumptions=[
         "exact arithmetic in the theorems; the dense eigensolvers and inv are parameters with contracts (A V = V D with V invertible; V unitary for eigh; B A = 1)",
         "Krylov paths: the theorem assumes a complete factorisation A Q = Q T (full Krylov dimension or invariant subspace, from C14/C15); convergence of truncated runs is not claimed",
@@ -2090,17 +2193,24 @@ def run(ctx):
         "early-termination stream: the exhaustion of the Krylov space is a floating-point event (residual at rounding level); cases are kept only when an independent "
         "float64 model of the recurrence puts that residual a factor 100 below the tolerance of the algorithm object, single eigenvectors and operators with one distinct "
         "eigenvalue are never generated (first-step breakdown is invisible to cola's relative test: C14 eigenvector-start-undetected, C15 breakdownNotMasked)",
-        "round 2: UnOp.SoundE (contracts only: LAPACK eigendecomposition A V = V D, Vi V = 1; complete Krylov factorisation proved for the loop models of C14 / C15 "
-        "in KrylovCompose; inv a left inverse) replaces the assumption that the oracle matrix is f(A); stream `krylov-exact`: the Lean driver evaluates Krylov base "
+        "UnOp.SoundE (contracts only: LAPACK eigendecomposition A V = V D, Vi V = 1; inv a left inverse; KrylovOK) replaces the assumption that the oracle matrix "
+        "is f(A).  Round 3: for Lanczos KrylovOK is DERIVED from the loop model of C14 (C09_krylov_ok_of_lanczos; what remains assumed is EighContract = LAPACK eigh "
+        "on the small tridiagonal matrix, satisfiable: eighSpectral_contract) and witnessed (C09_krylov_ok_witness, C09_lanczos_path_closed on [[2,1],[1,2]]); for "
+        "Arnoldi KrylovOK stays a contract (factorisation part: C09_arnoldi_path under C15's clauses noClip / stopExact, small eig + solve assumed); stream `krylov-exact`: the Lean driver evaluates Krylov base "
         "cases with polynomial f by the exact Krylov model (Q p(H) e1 over Q[i], invariance re-checked) -- for non-polynomial f the Krylov value is SPEC-ONLY "
         "(f(A) by numpy eig in eval_plan), compared with tolerance 1e-5",
         "stream `branch-*`: principal powers of Kronecker products of complex factors; the clause kron-pow-principal-branch is attached by the decidable predicate "
         "`kron_branch_violated` (argument sums of member eigenvalues outside (-pi, pi], margin 1e-6; generated spectra keep 0.12 rad distance from the cut), "
-        "Lean: C09_kron_pow_domain, C09_kron_pow_domain_witness, C09_kron_pow_counterexample",
+        "Lean: C09_kron_pow_domain, C09_kron_pow_domain_witness, C09_kron_pow_counterexample; trees: C09_pow_kron_complex (+ _witness), any number of members "
+        "C09_pow_kron_nary (+ _witness: three factors), positive spectra C09_pow_kron_positive",
         "labelled defect stream `defect-zero-column` (Kronecker products whose Krylov member receives a zero column): every failure must be NaN / LinAlgError AND "
-        "explained by the decidable predicate `krylov_zero_column` (simulation of Kronecker._matmat's member order) -> recorded clause krylov-zero-column",
-        "recorded findings come from known_findings.json (scalar-times-annotated, kron-pow-principal-branch, krylov-batch-unequal-exhaustion = C15 breakdownNotMasked / C14 batch-member-breakdown "
-        "surfacing through C09), the latter applied only to a batch with unequal exhaustion steps whose columns are all right when the same call is run on them one by one"])
+        "the DRIVER must list the clause (Lean predicate UnOp.zeroFibreClause on plan and exact operand: Kronecker._matmat's member order, certainly-zero entries) "
+        "-> recorded clause krylov-zero-column; the Python simulation `krylov_zero_column` is a cross-check on every Kronecker-root case",
+        "recorded findings come from known_findings.json (scalar-times-annotated, kron-pow-principal-branch, krylov-zero-column, krylov-batch-unequal-exhaustion = C15 "
+        "breakdownNotMasked / C14 batch-member-breakdown surfacing through C09); the latter is applied only to a wrong batch for which the DRIVER decides unequal "
+        "exhaustion steps (Lean KrylovExact.unequalExhaustion: Gram pivots of the Krylov vectors, relative stopping rule, exact arithmetic on the dyadic inputs) and "
+        "whose columns are all right when the same call is run on them one by one; cross-check: the generator's exhaustion steps; a disagreement between driver and "
+        "Python predicate is a VIOLATION no-failing-input-found (outcome clause-predicate-disagreement)"])
     print(json.dumps({"outcomes": cov["outcomes"], "distinct_nontrivial": cov["distinct_nontrivial"], "clauses": cov["distributions"]["clauses"],
                       "identity_checks": ident, "max_err": cov["max_relative_error_ok_cases"], "gate": (gate or {}).get("obligations"), "wall_s": round(ctx.wall(), 1),
                       "notes": ctx.notes[:5]}))
